@@ -103,6 +103,6 @@ Holds(c) == CASE c = "C11_Durable" -> C11_Durable [] c = "C11_Intact" -> C11_Int
 TStep == /\ TNext
          /\ LET nb == {c \in Clauses : ~(Holds(c))'} IN
               /\ bad' = bad \cup {<<l, c>> : c \in nb}
-              /\ (nb = {} \/ Cardinality(bad) > 40 \/ PrintT(<<"VERIF_BAD", l, nb>>))
+              /\ (nb = {} \/ Cardinality(bad) > 2000 \/ PrintT(<<"VERIF_BAD", l, nb>>))
 TSpec == TInit /\ [][TStep]_tvars
 =============================================================================
